@@ -5,7 +5,7 @@
    Extension lists: every kind with every content class alone; every ordered pair and triple of
    distinct kinds; ordered 4-lists of distinct kinds (all 7920 when AllQuads, otherwise a
    TLC-seeded random subset of NQuads); session id lengths 0/1/32/255/256, random modes
-   (literal, fresh, ClientRandom of a wrong length = fresh, timestamp), versions, suite and
+   (ClientRandom of 0/1/4/28/31/32/33 bytes x InsertTimestamp off/on), versions, suite and
    compression classes, ForceSuites, Config.ClientSessionCache set.                       *)
 EXTENDS TLSHello, Json, SequencesExt, Randomization
 
@@ -40,15 +40,16 @@ Others == <<
   X("sigalgs", <<<<8, 4>>>>, <<>>, FALSE), X("sigalgs", <<>>, <<>>, FALSE)
 >>
 
-Cfg(ver, rmode, random, sid, suites, comp, exts, serverName, force, cache) ==
-  [ver |-> ver, rmode |-> rmode, random |-> random, sid |-> sid, suites |-> suites, comp |-> comp, exts |-> exts,
+Cfg(ver, its, random, sid, suites, comp, exts, serverName, force, cache) ==
+  [ver |-> ver, its |-> its, random |-> random, sid |-> sid, suites |-> suites, comp |-> comp, exts |-> exts,
    serverName |-> serverName, force |-> force, cache |-> cache]
 BaseSuites == <<<<192, 47>>, <<0, 47>>>>
 Sids == <<<<>>, F(1, 20), F(32, 21), F(255, 22)>>
-RModes == <<[m |-> "fixed", r |-> F(32, 23)], [m |-> "fresh", r |-> <<>>], [m |-> "timestamp", r |-> <<>>], [m |-> "fresh", r |-> F(16, 24)],
-            [m |-> "timestamp", r |-> F(31, 25)]>>
+(* random modes: ClientRandom length x InsertTimestamp, the whole product *)
+RandLens == <<0, 1, 4, 28, 31, 32, 33>>
+RModes == [k \in 1..14 |-> [its |-> k > 7, r |-> F(RandLens[((k - 1) % 7) + 1], 23 + k)]]
 (* the i-th extension list gets the session id / random classes in rotation *)
-Rot(i, exts) == Cfg(<<3, 3>>, RModes[(i % 5) + 1].m, RModes[(i % 5) + 1].r, Sids[(i % 4) + 1], BaseSuites, <<0>>, exts, <<>>, FALSE, FALSE)
+Rot(i, exts) == Cfg(<<3, 3>>, RModes[(i % 14) + 1].its, RModes[(i % 14) + 1].r, Sids[(i % 4) + 1], BaseSuites, <<0>>, exts, <<>>, FALSE, FALSE)
 
 KindIdx == 1..Len(Kinds)
 Pairs   == {<<a, b>> \in KindIdx \X KindIdx : a # b}
@@ -59,39 +60,39 @@ ListOf(t) == [i \in 1..Len(t) |-> Primary(Kinds[t[i]])]
 TupleSeq == SetToSeq(Pairs) \o SetToSeq(Triples) \o SetToSeq(IF AllQuads THEN Quads ELSE RandomSubset(NQuads, Quads))
 
 Grid ==   \* session id x random mode x (no extension / two extensions)
-  SetToSeq({ Cfg(<<3, 3>>, RModes[r].m, RModes[r].r, sid, BaseSuites, <<0>>, exts, <<>>, FALSE, FALSE) :
+  SetToSeq({ Cfg(<<3, 3>>, RModes[r].its, RModes[r].r, sid, BaseSuites, <<0>>, exts, <<>>, FALSE, FALSE) :
                r \in 1..Len(RModes), sid \in {<<>>, F(1, 20), F(32, 21), F(255, 22), F(256, 26)},
                exts \in {<<>>, <<Primary("sni"), Primary("ticket")>>} })
 
 Special == <<
-  Cfg(<<3, 1>>, "fresh", <<>>, <<>>, BaseSuites, <<0>>, <<Primary("sni")>>, <<>>, FALSE, FALSE),
-  Cfg(<<3, 4>>, "fresh", <<>>, <<>>, BaseSuites, <<0>>, <<Primary("reneg")>>, <<>>, FALSE, FALSE),
-  Cfg(<<255, 255>>, "fresh", <<>>, <<>>, BaseSuites, <<0>>, <<>>, <<>>, FALSE, FALSE),
-  Cfg(<<3, 0>>, "fixed", F(32, 27), <<>>, BaseSuites, <<0>>, <<>>, <<>>, FALSE, FALSE),
+  Cfg(<<3, 1>>, FALSE, <<>>, <<>>, BaseSuites, <<0>>, <<Primary("sni")>>, <<>>, FALSE, FALSE),
+  Cfg(<<3, 4>>, FALSE, <<>>, <<>>, BaseSuites, <<0>>, <<Primary("reneg")>>, <<>>, FALSE, FALSE),
+  Cfg(<<255, 255>>, FALSE, <<>>, <<>>, BaseSuites, <<0>>, <<>>, <<>>, FALSE, FALSE),
+  Cfg(<<3, 0>>, FALSE, F(32, 27), <<>>, BaseSuites, <<0>>, <<>>, <<>>, FALSE, FALSE),
   \* suites
-  Cfg(<<3, 3>>, "fresh", <<>>, <<>>, <<>>, <<0>>, <<Primary("ems")>>, <<>>, FALSE, FALSE),
-  Cfg(<<3, 3>>, "fresh", <<>>, <<>>, <<<<192, 47>>>>, <<0>>, <<>>, <<>>, FALSE, FALSE),
-  Cfg(<<3, 3>>, "fresh", <<>>, <<>>, <<<<192, 47>>, <<18, 52>>>>, <<0>>, <<>>, <<>>, FALSE, FALSE),
-  Cfg(<<3, 3>>, "fresh", <<>>, <<>>, <<<<192, 47>>, <<18, 52>>>>, <<0>>, <<>>, <<>>, TRUE, FALSE),
-  Cfg(<<3, 3>>, "fresh", <<>>, <<>>, [i \in 1..300 |-> <<(i % 200) + 1, (i * 7) % 250>>], <<0>>, <<Primary("sct")>>, <<>>, TRUE, FALSE),
-  Cfg(<<3, 3>>, "fresh", <<>>, <<>>, <<<<192, 43>>, <<0, 156>>, <<192, 20>>, <<192, 47>>, <<0, 47>>>>, <<0>>, <<Primary("curves"), Primary("points")>>, <<>>, FALSE, FALSE),
-  Cfg(<<3, 3>>, "fresh", <<>>, <<>>, [i \in 1..200 |-> <<<<192, 47>>, <<0, 47>>, <<192, 43>>, <<0, 156>>, <<192, 20>>>>[(i % 5) + 1]], <<0>>, <<Primary("status")>>, <<>>, FALSE, FALSE),
+  Cfg(<<3, 3>>, FALSE, <<>>, <<>>, <<>>, <<0>>, <<Primary("ems")>>, <<>>, FALSE, FALSE),
+  Cfg(<<3, 3>>, FALSE, <<>>, <<>>, <<<<192, 47>>>>, <<0>>, <<>>, <<>>, FALSE, FALSE),
+  Cfg(<<3, 3>>, FALSE, <<>>, <<>>, <<<<192, 47>>, <<18, 52>>>>, <<0>>, <<>>, <<>>, FALSE, FALSE),
+  Cfg(<<3, 3>>, FALSE, <<>>, <<>>, <<<<192, 47>>, <<18, 52>>>>, <<0>>, <<>>, <<>>, TRUE, FALSE),
+  Cfg(<<3, 3>>, FALSE, <<>>, <<>>, [i \in 1..300 |-> <<(i % 200) + 1, (i * 7) % 250>>], <<0>>, <<Primary("sct")>>, <<>>, TRUE, FALSE),
+  Cfg(<<3, 3>>, FALSE, <<>>, <<>>, <<<<192, 43>>, <<0, 156>>, <<192, 20>>, <<192, 47>>, <<0, 47>>>>, <<0>>, <<Primary("curves"), Primary("points")>>, <<>>, FALSE, FALSE),
+  Cfg(<<3, 3>>, FALSE, <<>>, <<>>, [i \in 1..200 |-> <<<<192, 47>>, <<0, 47>>, <<192, 43>>, <<0, 156>>, <<192, 20>>>>[(i % 5) + 1]], <<0>>, <<Primary("status")>>, <<>>, FALSE, FALSE),
   \* compression
-  Cfg(<<3, 3>>, "fresh", <<>>, <<>>, BaseSuites, <<>>, <<>>, <<>>, FALSE, FALSE),
-  Cfg(<<3, 3>>, "fresh", <<>>, <<>>, BaseSuites, <<1>>, <<>>, <<>>, FALSE, FALSE),
-  Cfg(<<3, 3>>, "fresh", <<>>, <<>>, BaseSuites, <<0, 1>>, <<>>, <<>>, FALSE, FALSE),
+  Cfg(<<3, 3>>, FALSE, <<>>, <<>>, BaseSuites, <<>>, <<>>, <<>>, FALSE, FALSE),
+  Cfg(<<3, 3>>, FALSE, <<>>, <<>>, BaseSuites, <<1>>, <<>>, <<>>, FALSE, FALSE),
+  Cfg(<<3, 3>>, FALSE, <<>>, <<>>, BaseSuites, <<0, 1>>, <<>>, <<>>, FALSE, FALSE),
   \* Autopopulate with a configured server name
-  Cfg(<<3, 3>>, "fresh", <<>>, <<>>, BaseSuites, <<0>>, <<X("sni", <<>>, <<>>, TRUE), Primary("alpn")>>, F(13, 28), FALSE, FALSE),
-  Cfg(<<3, 3>>, "fresh", <<>>, <<>>, BaseSuites, <<0>>, <<Primary("alpn"), X("sni", <<>>, <<>>, TRUE)>>, <<>>, FALSE, FALSE),
+  Cfg(<<3, 3>>, FALSE, <<>>, <<>>, BaseSuites, <<0>>, <<X("sni", <<>>, <<>>, TRUE), Primary("alpn")>>, F(13, 28), FALSE, FALSE),
+  Cfg(<<3, 3>>, FALSE, <<>>, <<>>, BaseSuites, <<0>>, <<Primary("alpn"), X("sni", <<>>, <<>>, TRUE)>>, <<>>, FALSE, FALSE),
   \* a configured server name next to an explicit SNI extension
-  Cfg(<<3, 3>>, "fresh", <<>>, <<>>, BaseSuites, <<0>>, <<Primary("sni")>>, F(13, 29), FALSE, FALSE),
+  Cfg(<<3, 3>>, FALSE, <<>>, <<>>, BaseSuites, <<0>>, <<Primary("sni")>>, F(13, 29), FALSE, FALSE),
   \* Config.ClientSessionCache set
-  Cfg(<<3, 3>>, "fresh", <<>>, <<>>, BaseSuites, <<0>>, <<Primary("sni")>>, <<>>, FALSE, TRUE),
-  Cfg(<<3, 3>>, "fixed", F(32, 30), F(32, 31), BaseSuites, <<0>>, <<Primary("sni"), Primary("ticket"), Primary("reneg")>>, <<>>, FALSE, TRUE),
+  Cfg(<<3, 3>>, FALSE, <<>>, <<>>, BaseSuites, <<0>>, <<Primary("sni")>>, <<>>, FALSE, TRUE),
+  Cfg(<<3, 3>>, FALSE, F(32, 30), F(32, 31), BaseSuites, <<0>>, <<Primary("sni"), Primary("ticket"), Primary("reneg")>>, <<>>, FALSE, TRUE),
   \* extension block beyond 2^16-1
-  Cfg(<<3, 3>>, "fresh", <<>>, <<>>, BaseSuites, <<0>>, <<X("ticket", <<>>, F(65531, 32), FALSE), Primary("reneg")>>, <<>>, FALSE, FALSE),
+  Cfg(<<3, 3>>, FALSE, <<>>, <<>>, BaseSuites, <<0>>, <<X("ticket", <<>>, F(65531, 32), FALSE), Primary("reneg")>>, <<>>, FALSE, FALSE),
   \* two extensions of the same kind: not a well-formed hello (RFC 8446 4.2)
-  Cfg(<<3, 3>>, "fresh", <<>>, <<>>, BaseSuites, <<0>>, <<Primary("ems"), Primary("ems")>>, <<>>, FALSE, FALSE)
+  Cfg(<<3, 3>>, FALSE, <<>>, <<>>, BaseSuites, <<0>>, <<Primary("ems"), Primary("ems")>>, <<>>, FALSE, FALSE)
 >>
 
 Configs ==
